@@ -29,7 +29,7 @@ REQUIRED_CLASSES = ('buffering:default', 'buffering:line', 'buffering:flush-per-
                     'count:declared', 'count:backfilled', 'vel:yes', 'vel:no', 'crash:inside-close',
                     'crash:between-records', 'crash:mid-record', 'prefix:shipped', 'prefix:generated',
                     'accepted:complete-file', 'accepted:inside-box-line', 'api:extrapolate_system', 'api:write_gro',
-                    'api:write_comparative_gro')
+                    'api:write_comparative_gro', 'prefix:large-file')
 RULE = ('fault space: (writer run x buffering model x writer statement boundary) -> distinct on-disk images; every byte '
         'prefix of each in-progress stream; every byte prefix of complete files. A case is one (image or prefix) fed to '
         'the reader. Non-trivial: the image is non-empty and is not the complete file. distinct = distinct images per '
@@ -85,6 +85,8 @@ def cases(ctx):
         yield {'kind': 'generated', 'i': i}
     for i in range(4 if ctx.tier == 'quick' else 48):
         yield {'kind': 'kill', 'i': i}
+    for i, n in enumerate([100003] if ctx.tier == 'quick' else [99999, 100000, 100001, 100003, 100257, 200004]):
+        yield {'kind': 'large', 'i': i, 'n': n}
     for i in range(6 if ctx.tier == 'quick' else 120):
         yield {'kind': 'api', 'i': i}
 
@@ -407,8 +409,79 @@ def run_api(ctx, case):
     shutil.rmtree(root, ignore_errors=True)
 
 
+def sweep_points(ctx, complete, points, label, scratch, complete_recs):
+    """The given truncation lengths (any order) of a complete file."""
+    bstart = box_start_of(complete)
+    with open(scratch, 'wb') as fh:
+        fh.write(complete)
+    for k in sorted(set(int(p) for p in points if 0 <= p < len(complete)), reverse=True):
+        os.truncate(scratch, k)
+        ok, out = read_image(scratch)
+        ctx.monitor('prefix_read')
+        ctx.count('evaluations')
+        if not ok:
+            ctx.count('rejected:' + out)
+            continue
+        w = {'file': label, 'truncated_to': k, 'box_line_start': bstart, 'size': len(complete),
+             'tail': complete[max(0, k - 120):k].decode(errors='replace')}
+        if k <= bstart:
+            ctx.violation('accepted-truncation-before-box-line',
+                          f'{label} truncated to {k} bytes (box line starts at {bstart}) was accepted with {len(out)} records', witness=w)
+        elif [tuple(r) for r in out] != complete_recs:
+            ctx.violation('accepted-truncation-with-different-records', f'{label} truncated to {k} bytes returns other records', witness=w)
+        else:
+            ctx.hit('accepted:inside-box-line')
+
+
+def run_large(ctx, case):
+    """Complete files whose atom count needs six figures (the numbers inside the records wrap at 100000, the count in
+    the header does not).  The byte truncations swept: the whole header and the first records, a window around every
+    record whose index is a multiple of 100000 (and the records right after), the last records and the box line,
+    plus a random sample of the rest."""
+    import gaddlemaps.parsers as P
+    n = case['n']
+    rng = ctx.rng('large', case['i'])
+    spec = grospec.gen_spec(rng, with_vel=bool(case['i'] % 2), dec=3, force={'n': n})
+    spec['declare_count'] = bool(case['i'] % 2 == 0)
+    spec['format'] = 'default'
+    path = os.path.join(_tmp['dir'], f'L{os.getpid()}.gro')
+    scratch = os.path.join(_tmp['dir'], f'M{os.getpid()}.gro')
+    try:
+        grospec.write_spec(spec, path, P.GroFile)
+    except Exception as exc:  # noqa
+        ctx.violation(f'writer-raises-on-large-file:{type(exc).__name__}', str(exc)[:200], witness={'records': n})
+        return
+    with open(path, 'rb') as fh:
+        complete = fh.read()
+    ok, recs = read_image(path)
+    if not ok or len(recs) != n:
+        ctx.violation('complete-file-rejected', f'large file of {n} records: {recs if not ok else len(recs)}')
+        return
+    complete_recs = [tuple(r) for r in recs]
+    lines = complete.split(b'\n')
+    stride = len(lines[2]) + 1
+    first = len(lines[0]) + 1 + len(lines[1]) + 1
+    pts = set(range(0, first + 12 * stride))
+    for m in range(100000, n + 1, 100000):
+        pts |= set(range(first + (m - 3) * stride, min(len(complete), first + (m + 8) * stride)))
+    for m in (n % 100000,):
+        pts |= set(range(first + max(0, m - 2) * stride, first + (m + 8) * stride))
+    pts |= set(range(len(complete) - 12 * stride, len(complete)))
+    pts |= {int(x) for x in rng.integers(0, len(complete), 3000)}
+    sweep_points(ctx, complete, pts, f'large#{n}', scratch, complete_recs)
+    ctx.hit('prefix:large-file')
+    ctx.count('distinct_prefixes', len(pts))
+    ctx.nontrivial(('large', n))
+    for f in (path, scratch):
+        try:
+            os.remove(f)
+        except OSError:
+            pass
+
+
 def run_case(ctx, case):
-    {'writer': run_writer, 'shipped': run_shipped, 'generated': run_generated, 'kill': run_kill, 'api': run_api}[case['kind']](ctx, case)
+    {'writer': run_writer, 'shipped': run_shipped, 'generated': run_generated, 'kill': run_kill, 'api': run_api,
+     'large': run_large}[case['kind']](ctx, case)
 
 
 def finalize(ctx):
